@@ -136,6 +136,10 @@ class TensorC(Cls):
     def dims(self, spec):
         return [n for n, _ in spec]
 
+    @staticmethod
+    def dims_of(ty):
+        return [int(x.name) if hasattr(x, "name") else int(x) for x in getattr(ty, "objects", ty)]
+
     def evaluate(self, d):
         # what tensor.Diagram.eval does (tensor.py:429); `permutation` may hand back a
         # rigid.Diagram, which has no `eval` of its own
@@ -1337,6 +1341,27 @@ def check_case(rep, cls, req, line, model_eval, model_wires, shared=None, pendin
                              "the wires of left, in order, to the right of those of right")
             except Exception as e:
                 rep.fail("evaluation_raised:Tensor.swap", case, repr(e)[:300])
+            # ---- oracle: the same diagram of swaps contracted as a TENSOR NETWORK
+            # (`eval(contractor=...)` through `to_tn`, tensor.py:426-470: its own Swap branch on a
+            # list of open edges) must be the same 0/1 array, with the permuted type
+            try:
+                import tensornetwork as tn
+                if not dom_spec:        # no wire, no node: the external contractor refuses an empty network
+                    rep.count("to_tn:empty_network_not_contracted")
+                    raise ImportError
+                t = d.eval(contractor=tn.contractors.auto)
+                rep.count("array_evaluated:to_tn")
+                if cls.dims_of(t.dom) != [m for m, _ in dom_spec] \
+                        or cls.dims_of(t.cod) != [m for m, _ in req[2] + req[1]]:
+                    rep.fail("to_tn_type:tensor", case, "eval(contractor) has type %r -> %r" % (t.dom, t.cod))
+                else:
+                    why = array_failure(t.array, [m for m, _ in dom_spec], want)
+                    if why is not None:
+                        rep.fail("to_tn_" + why[0] + ":tensor", case, why[1])
+            except ImportError:
+                rep.count("to_tn:skipped")
+            except Exception as e:
+                rep.fail("evaluation_raised:to_tn", case, repr(e)[:300])
 
 
 def circuit_evaluations(rep, cls, d, dom_spec, want, case, sig, pending):
